@@ -42,6 +42,7 @@ func main() {
 	bad := flag.Float64("bad", 0.03, "share of batchable commands generated in a failing (but proposable) form")
 	fams := flag.String("fams", allFams, "families: k h s l z b(itmap) p(f) j(son)")
 	pairs := flag.Bool("pairs", false, "generate the batchable-pair sweep instead of random logs")
+	edge := flag.Bool("edge", false, "generate the edge-argument sweep of the batchable commands instead of random logs")
 	keepRaw := flag.Bool("raw", false, "keep the raw engine dump in the note field")
 	flag.Parse()
 
@@ -88,6 +89,8 @@ func main() {
 		}
 	} else if *pairs {
 		logs, vars = genPairs(*tier == "thorough")
+	} else if *edge {
+		logs, vars = genEdges()
 	} else {
 		r := hx.NewRng(*seed)
 		g := &gen{r: r}
@@ -356,6 +359,58 @@ func genPairs(thorough bool) ([]*Log, map[string][]*Variant) {
 						}
 					}
 				}
+			}
+		}
+	}
+	return logs, vars
+}
+
+// genEdges: every batchable command with boundary arguments (key / field / value sizes around the
+// limits, TTL spellings, missing table, odd argument counts, too many fields), each preceded by two
+// valid batchable writes, applied one per call / in one lifetime / in one call. A command that fails
+// must fail alone (hypothesis no_abort_in_batch: an abort-class failure implies rvalid = false).
+func genEdges() ([]*Log, map[string][]*Variant) {
+	rep := func(c string, n int) string { return strings.Repeat(c, n) }
+	ttls := []string{"1", "0", "-1", "+5", " 5", "5 ", "05", "0x10", "1e3", "abc", "", "4294967294", "4294967295", "2147483647",
+		"9223372036854775807", "9223372036854775808", "99999999999", "1.5"}
+	keys := []string{"t:k", "t:", ":k", "nocolon", "t:" + rep("K", 10238), "t:" + rep("K", 10239), rep("T", 300) + ":k", "t:k:k", "t:\x00"}
+	big := rep("v", 8*1024*1024)
+	var cmds [][]string
+	for _, k := range keys {
+		cmds = append(cmds, []string{"set", k, "v"}, []string{"setex", k, "5", "v"}, []string{"del", k}, []string{"hmset", k, "f", "1"},
+			[]string{"set", k, "v", "nx"}, []string{"set", k, "v", "ex", "5"})
+	}
+	for _, t := range ttls {
+		cmds = append(cmds, []string{"setex", "t:k", t, "v"}, []string{"set", "t:k", "v", "ex", t}, []string{"set", "t:k", "v", "EX", t, "NX"})
+	}
+	cmds = append(cmds,
+		[]string{"set", "t:k", "v", "nx", "xx"}, []string{"set", "t:k", "v", "ex"}, []string{"set", "t:k", "v", "px", "5"},
+		[]string{"set", "t:k", "v", "nx", "nx"}, []string{"set", "t:k"}, []string{"setex", "t:k", "5"}, []string{"setex", "t:k", "5", "v", "w"},
+		[]string{"set", "t:k", big + "v"}, []string{"setex", "t:k", "5", big + "v"},
+		[]string{"hmset", "t:k", "f", big + "v"}, []string{"hmset", "t:k", "f"}, []string{"hmset", "t:k"}, []string{"hmset", "t:k", "f", "1", "g"},
+		[]string{"hmset", "t:k", rep("F", 10240), "1"}, []string{"hmset", "t:k", rep("F", 10241), "1"},
+		[]string{"hmset", "t:k", "ok", "1", rep("F", 10241), "2"}, []string{"hmset", "t:k", "", ""},
+		[]string{"del", "t:k", "t:j"}, []string{"del", "t:k", "t:k"})
+	many := []string{"hmset", "t:k"}
+	for i := 0; i < 5001; i++ {
+		many = append(many, "f"+strconv.Itoa(i), "1")
+	}
+	cmds = append(cmds, many, many[:len(many)-2])
+	var logs []*Log
+	vars := map[string][]*Variant{}
+	n := 0
+	for _, pol := range []string{"compact", "local"} {
+		for _, c := range cmds {
+			n++
+			l := &Log{ID: "E" + strconv.Itoa(n), Policy: pol}
+			l.Reqs = append(l.Reqs, mkReq([]string{"set", "t:a", "1"}, sec), mkReq([]string{"hmset", "t2:h", "f", "1"}, sec+1), mkReq(c, sec+2),
+				mkReq([]string{"setex", "t:b", "9", "2"}, sec+3))
+			m := len(l.Reqs)
+			logs = append(logs, l)
+			vars[l.ID] = []*Variant{
+				{ID: l.ID + ".v0", Engine: "mem", Part: partOne(m), Cut: -1, Expire: -1},
+				{ID: l.ID + ".v1", Engine: "mem", Part: partGiant(m, m), Cut: -1, Expire: -1},
+				{ID: l.ID + ".v2", Engine: "mem", Part: [][]Call{{{N: m}}}, Cut: -1, Expire: -1},
 			}
 		}
 	}
